@@ -203,6 +203,49 @@ def check_unpriv_users(run, repo, eff, bind):
                           '%s uses the unprivileged accessor although it is not an LDRT/STRT-class instruction' % ci.name)
 
 
+PRIV_PARAMS = ('privileged', 'ispriv', 'is_priv')
+
+
+def check_privilege_flow(run, repo):
+    """C19-U (flow): inside a function that receives the privilege of the access as a parameter, every call of a function that
+    takes such a parameter passes that parameter itself (the privilege is decided once, by the outermost accessor; recomputing
+    it from the current mode turns an unprivileged LDRT/STRT access into a privileged one)."""
+    import ast
+    ci = repo.cls('ArmV6')
+    sigs = {}
+    for fi in ci.methods.values():
+        names = fi.params()
+        for q in PRIV_PARAMS:
+            if q in names:
+                sigs[fi.name] = (names.index(q), q)
+    n = 0
+    for fi in ci.methods.values():
+        if fi.name not in sigs:
+            continue
+        p = sigs[fi.name][1]
+        for node in ast.walk(fi.node):
+            if not (isinstance(node, ast.Call) and isinstance(node.func, ast.Attribute) and ast.unparse(node.func.value) == 'self'
+                    and node.func.attr in sigs):
+                continue
+            pos, q = sigs[node.func.attr]
+            pos -= 1     # `self` is bound
+            arg = None
+            if pos < len(node.args):
+                arg = node.args[pos]
+            for kw in node.keywords:
+                if kw.arg == q:
+                    arg = kw.value
+            n += 1
+            good = isinstance(arg, ast.Name) and arg.id == p
+            run.instance('C19-U', '%s -> %s' % (fi.qualname, node.func.attr), ok=good, sample={'caller': fi.qualname, 'callee': node.func.attr})
+            if not good:
+                run.violation('C19-U', fi.relpath, fi.qualname, 'privilege passed to %s' % node.func.attr,
+                              '%s receives `%s` as the privilege of the access instead of the caller\'s own `%s` parameter: an access '
+                              'made with an explicit privilege (LDRT/STRT: unprivileged) would be checked with a different one' % (
+                                  node.func.attr, ast.unparse(arg) if arg is not None else '<missing>', p))
+    run.floor('privilege-forwarding call sites', n, 9)
+
+
 def main(repo_path, tier, seed, replay=None):
     run = Run('C19', tier, level='other', seed=seed)
     repo = Repo(repo_path)
@@ -213,6 +256,7 @@ def main(repo_path, tier, seed, replay=None):
     check_write_hsr_callers(run, repo, eff)
     check_unpriv_users(run, repo, eff, bind)
     # (a) the gated writers' own guards
+    check_privilege_flow(run, repo)
     c12.check_cpsr_write_as(run, repo, 'C19-S')
     tmp = Run('tmp')
     c12.check_spsr_write(tmp, repo)
